@@ -112,6 +112,9 @@ func runDump(repo, key, mode string) int {
 	fmt.Printf("report: %+v\n", *rep)
 	dir, _ := os.MkdirTemp("", "vcgo-dump")
 	defer os.RemoveAll(dir)
+	for _, o := range vc.obls {
+		debugObl(o)
+	}
 	solveAll(vc.obls, dir, 12, 5, 60)
 	for _, o := range vc.obls {
 		fmt.Printf("%-8s %-14s %6.2fs %s %v\n", o.Result, o.Solver, o.Seconds, o.Name, o.Props)
@@ -262,8 +265,14 @@ func runCheck(repo, id, tier string) int {
 	var reports []*FuncReport
 	assumptions := map[string]bool{}
 	funcsUnder := map[string]bool{}
+	vcs := map[string]*VC{}
 	for _, it := range items {
-		vc := newVC(eng, modeByName(it.mode))
+		vc := vcs[it.mode]
+		if vc == nil {
+			vc = newVC(eng, modeByName(it.mode))
+			vcs[it.mode] = vc
+		}
+		vc.obls, vc.trivial, vc.notes = nil, nil, nil
 		var rep *FuncReport
 		if it.lemma != nil {
 			rep = vc.proveLemma(it.lemma)
